@@ -96,7 +96,7 @@ STRESS = [
 def gen(tier, rnd):
     L = list(STRESS)
     # the inputs of one variadic whenAll fulfilled by different threads at the same moment, round after round
-    for n in (4, 2, 3): L.append('allmt %d %d' % (n, 20000 if tier == 'quick' else 150000))
+    for n in (4, 2, 3): L.append('allmt %d %d' % (n, 20000 if tier == 'quick' else 100000))
     n = 400 if tier == 'quick' else 8000
     for _ in range(n):
         b = Builder(rnd)
@@ -116,7 +116,7 @@ def gen(tier, rnd):
         L.append(b.line())
     # the same programs run by a harness that lets go of every handle (promise object, resolver, rejection) right after the
     # last operation naming it, as the temporaries and locals of a C++ program would: lifetimes must not change what runs
-    L += ['progd' + l[4:] for l in L]
+    L += ['progd' + l[4:] for l in L if l.startswith('prog ')]
     return L
 
 BAD = ('ASAN', 'UBSAN', 'HANG', 'CRASH', 'TERMINATE', 'MISSING', 'bad-prog')
@@ -236,7 +236,7 @@ def classify(line, out):
     return (sig, out.split(' | ')[2] if ' | ' in out else out[:10])
 
 RULE = ('well-typed programs over the promise API: 1..3 initial promises (pending/resolved/rejected), then 1..12 operations drawn from then (value/void/promise-returning x rethrow/ignore/custom handler), '
-        'whenAll (variadic and iterator-range) / whenAny over 1..4 inputs, resolve/reject (incl. double settlement), attached before or after settlement; plus a stress list; the inputs of a variadic whenAll (2..4) fulfilled by as many threads at the same moment, 20000 (thorough 150000) rounds each (real threads, spin barrier: sampling of the interleavings, not enumeration); '
+        'whenAll (variadic and iterator-range) / whenAny over 1..4 inputs, resolve/reject (incl. double settlement), attached before or after settlement; plus a stress list; the inputs of a variadic whenAll (2..4) fulfilled by as many threads at the same moment, 20000 (thorough 100000) rounds each (real threads, spin barrier: sampling of the interleavings, not enumeration); '
         'every program is run twice: `prog` keeps every handle to the end (final states compared), `progd` lets go of every promise object / resolver / rejection right after its last use (answers and log compared). non-trivial = distinct (operation signature, final states)')
 ASSUME = ['single-threaded (cross-thread interleavings are C12)', 'callbacks do not throw', 'a promise returned by a promise-returning callback is used for nothing else',
           'whenAll values are compared through an order-sensitive encoding (sum of v_i * 100^i)']
